@@ -14,6 +14,7 @@ import LzmaVerif.Model.BcjStream
 import LzmaVerif.Model.Mem
 import LzmaVerif.Model.Options
 import LzmaVerif.Model.Parse
+import LzmaVerif.Model.Bcj2
 /-! Request handlers: each maps a parsed request to the canonical answer line. -/
 namespace Driver
 open LzmaVerif
@@ -247,8 +248,30 @@ def handleSplit (cmd : String) (a : Args) : String :=
     | _ => "bad-op"
   | _, _ => "bad-op"
 
+/-- `bcj2.enc conv=<hex: one 0/1 decision per opcode, cycled> in=<hex>` → `ok <main> <call> <jump> <rc>`;
+    `bcj2.dec main=<hex> call=<hex> jump=<hex> rc=<hex> size=<n>` → `ok <len> <fnv>` / `err <ErrorName>` -/
+def handleBcj2 (cmd : String) (a : Args) : String :=
+  match cmd with
+  | "bcj2.enc" =>
+    (match a.bytes? "conv", a.bytes? "in" with
+     | some conv, some inp =>
+       let ca := conv.toArray
+       let f : Nat → Bool := fun k => if ca.size = 0 then false else ca.getD (k % ca.size) 0 != 0
+       let s := Bcj2.encode f inp
+       s!"ok {hex s.main} {hex s.call} {hex s.jump} {hex s.rc}"
+     | _, _ => "bad-op")
+  | "bcj2.dec" =>
+    (match a.bytes? "main", a.bytes? "call", a.bytes? "jump", a.bytes? "rc", a.nat? "size" with
+     | some m, some c, some j, some r, some n =>
+       (match Bcj2.decode m c j r n with
+        | .ok out => s!"ok {out.length} {fnv out}"
+        | .error e => s!"err {e.name}")
+     | _, _, _, _, _ => "bad-op")
+  | _ => "bad-op"
+
 def handle (cmd : String) (a : Args) : String :=
   match cmd with
+  | "bcj2.enc" | "bcj2.dec" => handleBcj2 cmd a
   | "split.xz" | "split.lzip" | "split.mt" => handleSplit cmd a
   | "lzma.expected" => handleExpected a
   | "opts.validate" => handleOpts a
